@@ -579,6 +579,11 @@ func c08MixedMulti(s *Step) bool {
 }
 
 func (c08) Exec(seed int64, i int, tier string) Record {
+	if i%20 == 9 {
+		// classes overlap-probe / kth-fault-probe (b15_overlap.go): composition also holds for a parsed function that is
+		// evaluated on two documents at overlapping times, and when the continuation's function fails on its k-th call only
+		return b15Case("C08", CaseRng(seed, "C08", i))
+	}
 	r := CaseRng(seed, "C08", i)
 	e := &c08Eval{cfg: Config(false, nil)}
 	// most cases should select something: redraw a failing case a few times (one case in
